@@ -1,9 +1,15 @@
 #!/bin/bash
-# seedtest.sh <property-id> <patch.diff> : apply a seeded change to /repo, run the property's quick check, undo.
+# seedtest.sh <property-id> <patch.diff> : apply a seeded change to a scratch worktree of /repo's HEAD (outside /repo
+# and /verif, removed afterwards), run the property's quick check against that tree, print its verdict lines.
+# /repo itself is not touched, and no evidence file is written.
 set -u
 id="$1"; patch="$2"
-cd /repo || exit 2
-if [ -n "$(git status --porcelain --untracked-files=no)" ]; then echo "repo dirty"; exit 2; fi
-git apply "$patch" || { echo "patch does not apply"; exit 2; }
-( cd /verif && ./check "$id" 2>&1 | grep "VIOLATION\|SUMMARY\|UNDECIDED" | cut -c1-230 )
-git checkout -- . 
+export PATH=/opt/veriftools/go1.26.8/bin:$PATH GOTOOLCHAIN=local GOPROXY=off GOSUMDB=off; unset GOFLAGS
+wt=$(mktemp -d /tmp/seedrepo_${id}_XXXX)
+rmdir $wt
+git -C /repo worktree add -q --detach $wt HEAD || exit 2
+trap 'git -C /repo worktree remove --force '$wt' 2>/dev/null; rm -rf '$wt'' EXIT
+( cd $wt && git apply "$patch" ) || { echo "patch does not apply"; exit 2; }
+cd /verif
+[ -x bin/govc ] || ./setup.sh >/dev/null
+bin/govc check -prop "$id" -tier quick -repo $wt -no-evidence 2>&1 | grep "VIOLATION\|SUMMARY\|UNDECIDED\|ENGINE" | cut -c1-260
